@@ -27,15 +27,9 @@ class RuleInfo:
         self.elems = {}
         for e, rn in self.mappings.items():
             self.elems.setdefault(rn, []).append(e)
-        try:
-            self.mixed = set()
-            import ast, inspect
-            src = inspect.getsource(rulemod.Rule.validate_rule)
-            for nm in ("RULE_TEXT", "RULE_ANYNAME", "RULE_PARA", "RULE_SUBSCRIPT", "RULE_SUPERSCRIPT"):
-                if nm in src:
-                    self.mixed.add(getattr(rulemod, nm))
-        except Exception:
-            self.mixed = {"textRule", "anyNameRule", "paraRule", "subscriptRule", "superscriptRule"}
+        # the rules with mixed content (text interleaved with child elements), as documented for the pinned version: TextType,
+        # the any-name text elements, para, subscript, superscript.  A constant of the oracle, not read from the code under test.
+        self.mixed = {"textRule", "anyNameRule", "paraRule", "subscriptRule", "superscriptRule"}
 
     def rule_names(self):
         return list(self.rules.keys())
